@@ -160,14 +160,54 @@ Definition expected_query_writes : list string := [
   "PairV2.update:pairData.Reserve0"; "PairV2.update:pairData.Reserve1";
   "Candidates.loadDeletedCandidates:Candidates.deletedCandidates";
   "Accounts.GetBalance:Model.balances"; "Accounts.setToMapIfAbsent:Accounts.list";
-  "Coins.markDirty:Coins.dirty"; "Coins.setToMap:Coins.list";
-  "Coins.setSymbolInfoToMap:Coins.symbolsInfoList"; "Coins.setSymbolToMap:Coins.symbolsList";
-  "WaitList.setToMap:WaitList.list"; "FrozenFunds.setToMap:FrozenFunds.list";
+  "Coins.markDirty:Coins.dirty"; "Coins.setToMapIfAbsent:Coins.list";
+  "Coins.setSymbolInfoToMapIfAbsent:Coins.symbolsInfoList"; "Coins.setSymbolToMapIfAbsent:Coins.symbolsList";
+  "WaitList.setToMapIfAbsent:WaitList.list"; "FrozenFunds.setToMapIfAbsent:FrozenFunds.list";
   "AppDB.GetVersions:AppDB.versions"; "AppDB.Emission:AppDB.emission"]%string.
 
 Example C25_query_write_sites :
   query_write_keys accesses = xlate_query_writes /\ xlate_query_writes = expected_query_writes.
 Proof. vm_compute. split; reflexivity. Qed.
+
+(* ---- the static sites: reviewed / reported --------------------------------------------- *)
+(* Every static site the translator finds (unguarded access, opposite lock orders, re-acquisition, non-atomic
+   fill) is either REVIEWED here, with the argument why it cannot go wrong although it violates the letter of the
+   discipline, or REPORTED by the harness under its key (Generated/Locks.unguarded.txt).  The translator carries
+   the same reviewed list (harness/cmd/xlate/locks.go, reviewedSites, with source facts it re-checks on every
+   run); this Example pins it, with the number of unguarded accesses of each site: a Lock removed anywhere makes a
+   new key or changes a count, the site is then reported AND this file stops compiling.
+   Not listed because the translator proves them irrelevant: Validators.Create (unreachable: no call site in the
+   repo, checked on every run). *)
+Definition reviewed_sites : list (string * Z * string) := [
+  ("c25-unguarded:coreV2/state/swap/orderV2.go:PairV2.getDirtyOrdersList:orderDirties.list", 1,
+   "len(p.dirtyOrders.list) before the RLock, a capacity hint; called from SwapV2.Commit under pair.lockOrders; dirtyOrders.list of a live pair is written only by MarkDirtyOrders, whose callers on a live pair hold lockOrders and run in block execution; queries write it on private copies only");
+  ("c25-unguarded:coreV2/state/swap/swapV2.go:SwapV2.Commit:SwapV2.dirties", 1,
+   "s.dirties = map{} under muPairs.RLock: every other access is the markDirty closure under muPairs.Lock (excluded by the RLock) or getOrderedDirtyPairs in Commit itself (same goroutine)");
+  ("c25-unguarded:coreV2/state/swap/swapV2.go:SwapV2.Commit:SwapV2.dirtiesOrders", 1,
+   "s.dirtiesOrders = map{} under muPairs.RLock: every other access is the markDirtyOrders closure under muPairs.Lock (excluded by the RLock) or getOrderedDirtyOrderPairs in Commit itself (same goroutine)");
+  ("c25-relock:coreV2/state/validators/validators.go:Validators.IsValidator->Validators.GetValidators:Validators.lock", 0,
+   "RLock inside RLock deadlocks only if another goroutine asks for the write lock in between; IsValidator is called only by Candidates.DeleteCandidate (block execution); the write lock is requested by block execution itself and by Count(), reached only from IsDelegatorStakeAllowed (Delegate: DeliverTx, and CheckTx which the local ABCI client serialises with block execution); no API/CLI handler calls either (re-checked by the translator)")
+]%string%Z.
+
+Definition all_static_keys : list string :=
+  (xlate_unguarded ++ xlate_lock_cycles ++ xlate_relocks ++ xlate_nonatomic_fills)%list.
+
+Definition is_reviewed (k : string) : bool := existsb (fun r => String.eqb (fst r) k) xlate_reviewed.
+
+Example C25_static_sites_reviewed :
+  (xlate_reviewed = map fst reviewed_sites) /\
+  (filter (fun k => negb (is_reviewed k)) all_static_keys = xlate_reported) /\
+  (forallb (fun r => existsb (String.eqb (fst r)) all_static_keys) xlate_reviewed = true).
+Proof. vm_compute. repeat split; reflexivity. Qed.
+
+(* what the harness reports on the current tree: GENUINE defects, each demonstrated on the real node by
+   `vharness c25 ... child firsttouch-<kind>` (after a restart, a query for the object races the first transaction
+   that touches it: the transaction's effect is missing from the committed tree; keys c25-lost-update:<kind>).
+   Empty once docs/proposals/c25-lost-update-{coins,waitlist,frozenfunds}.diff are applied. *)
+Definition expected_reported : list string := [].
+
+Example C25_reported_sites : xlate_reported = expected_reported.
+Proof. vm_compute. reflexivity. Qed.
 
 Print Assumptions C25_lockset_race_free.
 Print Assumptions C25_table_race_free.
